@@ -423,8 +423,8 @@ def rand_strings(rng, alpha, n, maxlen):
 # ------------------------------------------------------------------------------------------------
 # running both sides
 
-def run_impl(d, cases, jobs=4, timeout=900):
-    """cases: list of (sre, strs).  Returns list of raw driver lines (None where the process died)."""
+def run_impl(d, cases, jobs=4, timeout=900, ranged=False):
+    """cases: list of (sre, strs) -- or (sre, [(str, start, end)]) when ranged.  Returns list of raw driver lines (None where the process died)."""
     res = [None] * len(cases)
     os.makedirs(B.SCRATCH, exist_ok=True)
 
@@ -432,7 +432,10 @@ def run_impl(d, cases, jobs=4, timeout=900):
         with tempfile.NamedTemporaryFile("w", suffix=".c20", dir=B.SCRATCH, delete=False) as fh:
             for i in range(lo, hi):
                 r, strs = cases[i]
-                fh.write("(%d %s%s)\n" % (i, scm(r), "".join(" " + str_scm(s) for s in strs)))
+                if ranged:
+                    fh.write("(%d range %s%s)\n" % (i, scm(r), "".join(" (%s %d %d)" % (str_scm(s), a, b) for s, a, b in strs)))
+                else:
+                    fh.write("(%d %s%s)\n" % (i, scm(r), "".join(" " + str_scm(s) for s in strs)))
             path = fh.name
         try:
             try:
@@ -465,6 +468,8 @@ def run_impl(d, cases, jobs=4, timeout=900):
 
 
 def replay_cmd(r, s, api):
+    if api.endswith("/start-end"):
+        return "as %s on the substring; see input.called_with for the original string and start/end" % replay_cmd(r, s, api[:-10])
     return ("printf '%%s' '(import (scheme base) (scheme write) (chibi regexp)) (let ((m (%s (quote %s) %s))) "
             "(write (and m (let lp ((i 0)) (if (> i (regexp-match-count m)) (quote ()) (cons (cons (regexp-match-submatch-start m i) "
             "(regexp-match-submatch-end m i)) (lp (+ i 1)))))))) (newline)' | "
@@ -486,13 +491,35 @@ def parse_spans(txt):
     return out
 
 
-def compare(ctx, exe, d, cases, label, sample=True):
-    """run model and implementation on cases = [(sre, [strings])] and judge every pair"""
+def compare(ctx, exe, d, cases, label, sample=True, ranged=False):
+    """run model and implementation on cases = [(sre, [strings])] and judge every pair.
+    ranged: cases = [(sre, [(string, start, end)])]: the implementation is called with the optional start/end arguments; SRFI 115:
+    equivalent to matching (substring str start end), positions reported relative to the whole string"""
     if not cases:
         return
+    if ranged:
+        rcases = cases
+        cases = [(r, [s[a:b] for s, a, b in xs]) for r, xs in rcases]
     reqs = ["B %s%s" % (proto(r), "".join(" | " + sfield(s) for s in strs)) for r, strs in cases]
     mo = ctx.run_model(exe, reqs)
-    io = run_impl(d, cases)
+    io = run_impl(d, rcases if ranged else cases, ranged=ranged)
+    if ranged:
+        # shift the implementation's absolute positions back to positions inside the substring
+        def shift(line, xs):
+            if line is None or not line.startswith("R"):
+                return line
+            out = ["R"]
+            for res, (s, a, b) in zip(line.split(" ")[1:], xs):
+                parts = []
+                for part in res.split(";"):
+                    tag, txt = part[0], part[1:]
+                    if txt not in ("-",) and not txt.startswith("!"):
+                        txt = ",".join(t if t == "x" else "%d-%d" % tuple(int(v) - a for v in t.split("-")) for t in txt.split(","))
+                    parts.append(tag + txt)
+                out.append(";".join(parts))
+            return " ".join(out)
+        io = [shift(l, xs) for l, (r, xs) in zip(io, rcases)]
+    api_sfx = "/start-end" if ranged else ""
     chk_req, chk_meta = [], []
     for ci, ((r, strs), m, i) in enumerate(zip(cases, mo, io)):
         cls = klass(r)
@@ -515,16 +542,19 @@ def compare(ctx, exe, d, cases, label, sample=True):
         if len(ires) != len(strs) or len(mres) != len(strs):
             ctx.broken("correspondence:C20", "driver answered %d results for %d strings: %s" % (len(ires), len(strs), i[:200]))
             continue
-        for s, mr, ir in zip(strs, mres, ires):
+        for si, (s, mr, ir) in enumerate(zip(strs, mres, ires)):
             nontriv = depth(r) >= 1 and len(s) >= 1
-            ctx.count(1, key=(r, s), nontrivial=nontriv)
+            ctx.count(1, key=(r, rcases[ci][1][si]) if ranged else (r, s), nontrivial=nontriv)
             ctx.cov["traces_validated_against_impl"] += 1
             mb, sb = mr[0] == "1", mr[1] == "1"
             mspan = None if mr[3:] == "x" else tuple(int(x) for x in mr[3:].split("-"))
             im, isr = ir.split(";")
             im, isr = im[1:], isr[1:]
             inp = dict(sre=scm(r), string=str_scm(s), sre_model=proto(r), string_cps=list(s))
-            for api, txt, want in (("regexp-matches", im, mb), ("regexp-search", isr, sb)):
+            if ranged:
+                o, a, b = rcases[ci][1][si]
+                inp["called_with"] = dict(string=str_scm(o), start=a, end=b)
+            for api, txt, want in (("regexp-matches" + api_sfx, im, mb), ("regexp-search" + api_sfx, isr, sb)):
                 if txt.startswith("!"):
                     ctx.violation("%s:error:%s" % (api, cls), input=inp, observed=txt, expected="match=%s" % want, replay=replay_cmd(r, s, api))
                     continue
@@ -543,13 +573,13 @@ def compare(ctx, exe, d, cases, label, sample=True):
                 if sp[0] is None:
                     ctx.violation("%s:span0-missing:%s" % (api, cls), input=inp, observed=txt, expected="span of the whole match", replay=replay_cmd(r, s, api))
                     continue
-                if api == "regexp-matches" and sp[0] != (0, len(s)):
+                if api.startswith("regexp-matches") and sp[0] != (0, len(s)):
                     ctx.violation("%s:span0-not-whole-string:%s" % (api, cls), input=inp, observed=txt, expected="0-%d" % len(s), replay=replay_cmd(r, s, api))
                     continue
-                if api == "regexp-search" and not ng and sp[0] != mspan:
+                if api.startswith("regexp-search") and not ng and sp[0] != mspan:
                     ctx.violation("%s:not-leftmost-longest:%s" % (api, cls), input=inp, observed=txt, expected="%d-%d" % mspan, replay=replay_cmd(r, s, api))
                     continue
-                if api == "regexp-search" and ng and sp[0][0] != mspan[0]:
+                if api.startswith("regexp-search") and ng and sp[0][0] != mspan[0]:
                     ctx.violation("%s:not-leftmost:%s" % (api, cls), input=inp, observed=txt, expected="start %d" % mspan[0], replay=replay_cmd(r, s, api))
                     continue
                 chk_req.append("C %s | %s | %s" % (proto(r), sfield(s), ",".join("x" if x is None else "%d-%d" % x for x in sp)))
@@ -729,8 +759,9 @@ def run(ctx):
     rng = ctx.rng
     used = set()
 
+    import time
+
     def go(cases, label):
-        import time
         t0 = time.time()
         cases = [(tame(r), strs) for r, strs in cases]
         for r, strs in cases:
@@ -784,6 +815,22 @@ def run(ctx):
             r = ('nocase', r)
         cases.append((r, rand_strings(rng, alpha + [alpha[0]], 8 if T else 6, 8)))
     go(cases, "unicode")
+    # -------------------------------------------------------------- optional start / end arguments
+    rcases = []
+    for _ in range(3000 if T else 200):
+        alpha = rng.choice([[A_, B_, NL], [A_, B_, UA, NL], rng.sample(ualpha, 4)])
+        r = tame(rand_sre(rng, alpha, rng.choice([1, 2, 3])))
+        xs = []
+        for s in rand_strings(rng, alpha, 6, 9):
+            a = rng.randrange(0, len(s) + 1)
+            xs.append((s, a, rng.randrange(a, len(s) + 1)))
+        rcases.append((r, xs))
+        used.update(cps_of(r))
+        for s, _, _ in xs:
+            used.update(s)
+    t0 = time.time()
+    compare(ctx, exe, d, rcases, "start-end-arguments", ranged=True)
+    ctx.note("stage start-end-arguments: %d SREs, %d calls, %.1fs" % (len(rcases), sum(len(x[1]) for x in rcases), time.time() - t0))
     # -------------------------------------------------------------- regexp-fold family
     greedy = [u for k, u in enumerate(UNARY_FULL) if k not in (1, 4, 8)]
     f1 = level_sets(ATOMS_FULL, greedy, BINARY, 1)
